@@ -306,6 +306,13 @@ pub fn run_crash_case(case: &SqlReplay, opts: &CrashOpts) -> CrashRun {
                 continue;
             }
         }
+        if case.guards.iter().any(|g| g == "crash_inside_drop_table") {
+            let dropping = inflight.map(|j| matches!(&case.events[j], Event::Auto(crate::stmt::Stmt::DropTable { .. }))).unwrap_or(false);
+            if dropping {
+                bump(&mut out.counters, "crash_points_inside_drop_table_not_judged", 1);
+                continue;
+            }
+        }
         if k <= created_at {
             bump(&mut out.counters, "crash_points_inside_create_not_judged", 1);
             continue;
@@ -449,7 +456,7 @@ pub fn run_crash_case(case: &SqlReplay, opts: &CrashOpts) -> CrashRun {
                 if skip_recovery_truncate && rec_log[*mi].file == "axmos.log" && rec_log[*mi].kind == tap::Kind::SetLen {
                     after_truncate = true;
                 }
-                if skip_recovery_truncate && after_truncate && obs.values().any(|v| v.is_some()) {
+                if skip_recovery_truncate && after_truncate {
                     // F6: recovery truncates the log before what it redid is durable
                     bump(&mut out.counters, "nested_points_after_recovery_truncate_not_judged", 1);
                     continue;
